@@ -168,12 +168,13 @@ func toSegments(segs []segT) []vaxis.Segment {
 
 type runner struct {
 	cfg    *hx.Config
-	s      *hx.Stream
+	s      *hx.Stream // one call on a background screen
+	q      *hx.Stream // sequences of calls on one screen
 	direct []hx.DirectViolation
 }
 
-// one case: reset the screen to the background, build the window, run the call, observe
-func (r *runner) run(e *env, ws winT, op opT, tags ...string) {
+// fill the real screen with the background through the root window
+func (e *env) reset() {
 	root := e.vx.Window()
 	root.Fill(goCell(bg))
 	for _, line := range e.vx.VerifScreenNext() {
@@ -183,6 +184,21 @@ func (r *runner) run(e *env, ws winT, op opT, tags ...string) {
 			}
 		}
 	}
+}
+
+// what one call did: Coq terms of the call and of the observation, the oracle answers it
+// needs, and the JSON rendering
+type stepRes struct {
+	opTerm, obsTerm string
+	snap            [][]cellT // the whole screen afterwards
+	ndiff           int
+	panicked        bool
+	js              map[string]interface{}
+}
+
+// build the window, run the call on the screen as it is, observe.  tab/seen collect the
+// oracle table (shared by the steps of a sequence)
+func (r *runner) exec(e *env, ws winT, op opT, tab *[]string, seen map[string]bool) stepRes {
 	w, frames := e.build(ws)
 	ox, oy := w.Origin()
 	retc, retr := 0, 0
@@ -214,12 +230,15 @@ func (r *runner) run(e *env, ws winT, op opT, tags ...string) {
 	}
 	var diff []string
 	var diffJS []interface{}
+	cells := make([][]cellT, len(snap))
 	for y, line := range snap {
 		if len(line) != e.cols {
 			panic("screen width changed")
 		}
+		cells[y] = make([]cellT, len(line))
 		for x, c := range line {
 			oc := obsCell(c)
+			cells[y][x] = oc
 			if oc != bg {
 				diff = append(diff, hx.Tuple(hx.Z(int64(x)), hx.Z(int64(y)), coqCell(oc)))
 				diffJS = append(diffJS, []interface{}{x, y, oc})
@@ -227,8 +246,6 @@ func (r *runner) run(e *env, ws winT, op opT, tags ...string) {
 		}
 	}
 	// oracle table for every character the text helpers will see
-	var tab []string
-	seen := map[string]bool{}
 	tabSrc := op.Segs
 	if op.Kind == "wrap" {
 		// Wrap calls Characters on each line segment separately
@@ -244,7 +261,7 @@ func (r *runner) run(e *env, ws winT, op opT, tags ...string) {
 				continue
 			}
 			seen[cl] = true
-			tab = append(tab, hx.Tuple(hx.Runes(cl), hx.Tuple(hx.Z(int64(e.vx.RenderedWidth(cl))), hx.Bool(uniseg.HasTrailingLineBreakInString(cl)))))
+			*tab = append(*tab, hx.Tuple(hx.Runes(cl), hx.Tuple(hx.Z(int64(e.vx.RenderedWidth(cl))), hx.Bool(uniseg.HasTrailingLineBreakInString(cl)))))
 		}
 	}
 	var opTerm string
@@ -276,11 +293,113 @@ func (r *runner) run(e *env, ws winT, op opT, tags ...string) {
 	}
 	obs := fmt.Sprintf("(mkObs %d %s %s %s %s)", outcome, hx.List(fr), hx.Tuple(hx.Z(int64(ox)), hx.Z(int64(oy))),
 		hx.List(diff), hx.Tuple(hx.Z(int64(retc)), hx.Z(int64(retr))))
+	js := map[string]interface{}{"window": ws, "op": op, "frames": frames, "origin": []int{ox, oy},
+		"changed": diffJS, "ret": []int{retc, retr}, "panic": msg}
+	return stepRes{opTerm: opTerm, obsTerm: obs, snap: cells, ndiff: len(diff), panicked: panicked, js: js}
+}
+
+// one case: reset the screen to the background, build the window, run the call, observe
+func (r *runner) run(e *env, ws winT, op opT, tags ...string) {
+	e.reset()
+	var tab []string
+	res := r.exec(e, ws, op, &tab, map[string]bool{})
 	term := fmt.Sprintf("(mkCase %d %d %s %s %s %s %s %s)", e.cols, e.rows, coqCell(bg), coqWin(ws), hx.Bool(e.remeasure),
-		hx.List(tab), opTerm, obs)
-	js := map[string]interface{}{"cols": e.cols, "rows": e.rows, "capmask": e.mask, "window": ws, "op": op,
-		"frames": frames, "origin": []int{ox, oy}, "changed": diffJS, "ret": []int{retc, retr}, "panic": msg}
-	r.s.Add(term, js, len(diff) > 0, append(tags, op.Kind, fmt.Sprintf("depth%d", len(ws.Steps)))...)
+		hx.List(tab), res.opTerm, res.obsTerm)
+	js := res.js
+	js["cols"], js["rows"], js["capmask"] = e.cols, e.rows, e.mask
+	r.s.Add(term, js, res.ndiff > 0, append(tags, op.Kind, fmt.Sprintf("depth%d", len(ws.Steps)))...)
+}
+
+// the call as Go source, for the replay file
+func describe(st seqStep) string {
+	var b strings.Builder
+	if st.Win.Root == nil {
+		b.WriteString("vx.Window()")
+	} else {
+		fmt.Fprintf(&b, "Window{%d,%d,%d,%d}", st.Win.Root.Col, st.Win.Root.Row, st.Win.Root.W, st.Win.Root.H)
+	}
+	for _, s := range st.Win.Steps {
+		if s.ViaNew {
+			fmt.Fprintf(&b, ".New(%d,%d,%d,%d)", s.A, s.B, s.C, s.D)
+		} else {
+			fmt.Fprintf(&b, ".Literal{%d,%d,%d,%d}", s.A, s.B, s.C, s.D)
+		}
+	}
+	op := st.Op
+	var texts []string
+	for _, sg := range op.Segs {
+		texts = append(texts, fmt.Sprintf("%q/st%d", sg.Text, sg.St))
+	}
+	cell := fmt.Sprintf("%q/w%d/st%d", op.Cell.G, op.Cell.W, op.Cell.St)
+	switch op.Kind {
+	case "setcell":
+		fmt.Fprintf(&b, ".SetCell(%d,%d,%s)", op.Col, op.Row, cell)
+	case "setstyle":
+		fmt.Fprintf(&b, ".SetStyle(%d,%d,st%d)", op.Col, op.Row, op.St)
+	case "fill":
+		fmt.Fprintf(&b, ".Fill(%s)", cell)
+	case "clear":
+		b.WriteString(".Clear()")
+	case "print":
+		fmt.Fprintf(&b, ".Print(%s)", strings.Join(texts, ","))
+	case "wrap":
+		fmt.Fprintf(&b, ".Wrap(%s)", strings.Join(texts, ","))
+	case "ptrunc":
+		fmt.Fprintf(&b, ".PrintTruncate(%d,%s)", op.Row, strings.Join(texts, ","))
+	case "println":
+		fmt.Fprintf(&b, ".Println(%d,%s)", op.Row, strings.Join(texts, ","))
+	}
+	return b.String()
+}
+
+type seqStep struct {
+	Win winT
+	Op  opT
+}
+
+// one sequence: reset the screen once, then run every call (each through its own window) on
+// what the earlier calls left behind; the screen is observed after every step
+func (r *runner) runSeq(e *env, steps []seqStep, tags ...string) {
+	e.reset()
+	var tab []string
+	seen := map[string]bool{}
+	var terms []string
+	var stepsJS []interface{}
+	var calls []string // the whole input in one line per call, first in the replay file
+	var prev [][]cellT
+	active := 0 // steps that changed the screen they found
+	for _, st := range steps {
+		res := r.exec(e, st.Win, st.Op, &tab, seen)
+		terms = append(terms, hx.Tuple(coqWin(st.Win), res.opTerm, res.obsTerm))
+		calls = append(calls, describe(st))
+		// for the replay file: what this step changed with respect to the screen before it
+		delta := []string{}
+		for y, line := range res.snap {
+			for x, c := range line {
+				old := bg
+				if prev != nil {
+					old = prev[y][x]
+				}
+				if c != old {
+					delta = append(delta, fmt.Sprintf("(%d,%d) %q/%d/%d -> %q/%d/%d", x, y, old.G, old.W, old.St, c.G, c.W, c.St))
+				}
+			}
+		}
+		if len(delta) > 0 {
+			active++
+		}
+		res.js["delta"] = delta
+		delete(res.js, "changed")
+		stepsJS = append(stepsJS, res.js)
+		prev = res.snap
+		tags = append(tags, "step-"+st.Op.Kind)
+		if res.panicked {
+			break
+		}
+	}
+	term := fmt.Sprintf("(mkSCase %d %d %s %s %s %s)", e.cols, e.rows, coqCell(bg), hx.Bool(e.remeasure), hx.List(tab), hx.List(terms))
+	js := map[string]interface{}{"calls": calls, "cols": e.cols, "rows": e.rows, "capmask": e.mask, "steps": stepsJS}
+	r.q.Add(term, js, active >= 2, append(tags, fmt.Sprintf("len%d", len(steps)))...)
 }
 
 // ---------- generators ----------
@@ -460,12 +579,71 @@ func (r *runner) genOp(e *env, ws winT, kind string) opT {
 	return op
 }
 
+// a call through the root (or a large window) that leaves content on most of the screen
+func (r *runner) painter(e *env, which int) seqStep {
+	root := winT{}
+	rowsOf := func(even, odd string) string {
+		var b strings.Builder
+		for y := 0; y < e.rows; y++ {
+			t := even
+			if y%2 == 1 {
+				t = odd
+			}
+			n := 0
+			for _, ch := range []rune(strings.Repeat(t, e.cols)) {
+				w := 1
+				if ch >= 0x1100 {
+					w = 2
+				}
+				if n+w > e.cols {
+					break
+				}
+				b.WriteRune(ch)
+				n += w
+			}
+			if n < e.cols && y+1 < e.rows {
+				b.WriteString("\n")
+			}
+		}
+		return b.String()
+	}
+	switch which {
+	case 0: // wide cell at every column
+		return seqStep{root, opT{Kind: "fill", Cell: cellT{"世", 2, 2}}}
+	case 1: // wide clusters at even columns / at odd columns, alternating by row
+		return seqStep{root, opT{Kind: "print", Segs: []segT{{rowsOf("世界", "a世界"), 2}}}}
+	case 2: // mixed text, wrapped
+		return seqStep{root, opT{Kind: "wrap", Segs: []segT{{rowsOf("ab世cd", "世 b界"), 3}}}}
+	default: // narrow text only
+		return seqStep{root, opT{Kind: "print", Segs: []segT{{rowsOf("abcde", "fghij"), 1}}}}
+	}
+}
+
+func (r *runner) genPainter(e *env) seqStep {
+	rnd := r.cfg.Rand
+	if rnd.Intn(3) > 0 {
+		return r.painter(e, rnd.Intn(4))
+	}
+	// a random large window with random wide-rich text or a random (often wide) fill
+	ws := winT{}
+	if rnd.Intn(2) == 0 {
+		ws.Steps = []stepT{{true, r.rint(-1, 1), r.rint(-1, 1), -1, -1}}
+	}
+	if rnd.Intn(2) == 0 {
+		return seqStep{ws, opT{Kind: "fill", Cell: r.genCell()}}
+	}
+	kind := []string{"print", "wrap"}[rnd.Intn(2)]
+	return seqStep{ws, opT{Kind: kind, Segs: r.genSegs(e.cols * e.rows)}}
+}
+
 func main() {
 	os.Unsetenv("COLORTERM")
 	cfg := hx.ParseFlags()
 	r := &runner{cfg: cfg}
 	r.s = hx.NewStream("draw", "model.Window", "case", "c11_draw_mismatches", "c11_draw_violations")
 	r.s.ShardMax = 250
+	r.q = hx.NewStream("seq", "model.Window", "scase", "c11_seq_mismatches", "c11_seq_violations")
+	r.q.ShardMax = 120
 
 	sizes := [][2]int{{1, 1}, {2, 2}, {3, 2}, {5, 4}, {6, 3}, {8, 5}}
 	// capability sets: none (wcwidth measuring), unicode core + explicit width (no
@@ -589,6 +767,69 @@ func main() {
 		}
 	}
 
-	cfg.Write("C11", "one drawing call (SetCell, SetStyle, Fill, Clear, Print, PrintTruncate, Println, Wrap) through a window chain of depth 0-4 built by Vaxis.Window/New and by Window literals with offsets and sizes from negative to beyond the parent, on screens 1x1..8x5 under three capability sets; texts over narrow, wide, combining, ZWJ, flag, tab, CR, LF, CRLF clusters; plus a (strided in quick, complete in thorough) enumeration of all depth-1 New windows on 5x4 and depth-2 windows on 3x2 under Fill; non-trivial = at least one screen cell changed",
-		[]*hx.Stream{r.s}, map[string]interface{}{"envs": len(envs)}, r.direct)
+	// ---------- sequences: state that survives between calls ----------
+	// (a) random: 2-4 calls, each through its own random window, on one screen.  The first
+	// call is often a "painter" that covers a large window with content rich in wide
+	// clusters, so that later windows cut through clusters and overwrite parts of them.
+	allKinds := []string{"setcell", "setstyle", "fill", "clear", "print", "ptrunc", "println", "wrap"}
+	nseq := 240
+	if cfg.Thorough() {
+		nseq = 20000
+	}
+	for i := 0; i < nseq; i++ {
+		e := envs[cfg.Rand.Intn(len(envs))]
+		if e.cols < 5 && cfg.Rand.Intn(4) > 0 {
+			e = envs[cfg.Rand.Intn(len(envs))]
+		}
+		n := 2 + cfg.Rand.Intn(3)
+		var steps []seqStep
+		for j := 0; j < n; j++ {
+			if j == 0 && cfg.Rand.Intn(100) < 55 {
+				steps = append(steps, r.genPainter(e))
+				continue
+			}
+			ws, _ := r.genWin(e, 3)
+			steps = append(steps, seqStep{ws, r.genOp(e, ws, allKinds[cfg.Rand.Intn(len(allKinds))])})
+		}
+		r.runSeq(e, steps, "seq-random", fmt.Sprintf("%dx%d", e.cols, e.rows))
+	}
+	// (b) directed: content painted through the root (wide clusters at every column parity,
+	// narrow text, a wide fill), then a window made by New whose four edges run through that
+	// content at every column offset, then each of the eight calls through that window
+	// touching its first and last column.  One capability set per (screen, painter).
+	pk := 0
+	for _, sz := range sizes {
+		if sz[0] < 5 {
+			continue
+		}
+		for pi := 0; pi < 4; pi++ {
+			var e *env
+			for _, c := range envs {
+				if c.cols == sz[0] && c.rows == sz[1] && c.mask == masks[pk%len(masks)] {
+					e = c
+				}
+			}
+			pk++
+			for a := 1; a < e.cols; a++ {
+				for ki, kind := range allKinds {
+					if !cfg.Thorough() && (ki+a+pi)%2 == 1 {
+						continue // quick tier: half of the calls per edge, alternating
+					}
+					b := (a + ki) % 2
+					wd := 1 + (a+ki)%3
+					ws := winT{Steps: []stepT{{true, a, b, wd, 2}}}
+					cw, _ := r.sizeOf(e, ws)
+					op := opT{Kind: kind, Cell: cellT{"x", 1, 5}, St: 6, Row: ki % 2, Segs: []segT{{"xy字z", 4}}}
+					if ki%2 == 1 {
+						op.Cell = cellT{"字", 2, 5}
+						op.Col = cw - 1
+					}
+					r.runSeq(e, []seqStep{r.painter(e, pi), {ws, op}}, "seq-edge-cut")
+				}
+			}
+		}
+	}
+
+	cfg.Write("C11", "one drawing call (SetCell, SetStyle, Fill, Clear, Print, PrintTruncate, Println, Wrap) through a window chain of depth 0-4 built by Vaxis.Window/New and by Window literals with offsets and sizes from negative to beyond the parent, on screens 1x1..8x5 under three capability sets; texts over narrow, wide, combining, ZWJ, flag, tab, CR, LF, CRLF clusters; plus a (strided in quick, complete in thorough) enumeration of all depth-1 New windows on 5x4 and depth-2 windows on 3x2 under Fill; non-trivial = at least one screen cell changed.  Stream seq: 2-4 calls, each through its own window, on one screen that is not reset in between (random windows and calls after a painter that covers the screen with wide/narrow content; directed: a New window whose edges cut painted content at every column, then each of the eight calls), every step compared and decided against the screen observed before it; non-trivial = at least two steps changed the screen they found",
+		[]*hx.Stream{r.s, r.q}, map[string]interface{}{"envs": len(envs)}, r.direct)
 }
